@@ -198,81 +198,88 @@ Theorem C13_writer_shape : forall mf data,
 Proof. exact writer_shape_lemma. Qed.
 
 (* ======================= non-vacuity ======================= *)
+(* Examples are stated through the boolean equalities of the model ([out_eqb] compares result, rest and trace)
+   so that vm_compute reduces them to [true = true] and no large term is re-checked. *)
 Definition ex_bytes (n : N) (b : N) : bytes := repeat b (N.to_nat n).
+Definition N_list_eqb : list N -> list N -> bool := bytes_eqb.
 
-(* strings at limit-1 and limit are accepted, limit+1 is rejected with only the length word read *)
+(* strings at limit-1 and limit are accepted, limit+1 is rejected with only the length word read;
+   a NUL byte is rejected after the padded string was consumed *)
 Example C13_string_boundary :
-  len (ex_bytes 8191 65) <= string_limit /\ len (ex_bytes 8192 65) <= string_limit /\
-  has_byte 0 (ex_bytes 8192 65) = false /\
-  dec_string (enc_string (ex_bytes 8191 65) ++ [7]) = (Ok (ex_bytes 8191 65), [7], [Rd 4; Rd 8191; Rd 1]) /\
-  dec_string (enc_string (ex_bytes 8192 65) ++ [7]) = (Ok (ex_bytes 8192 65), [7], [Rd 4; Rd 8192]) /\
-  dec_string (enc_string (ex_bytes 8193 65) ++ [7]) = (Err ELimit, ex_bytes 8193 65 ++ [0; 0; 0; 7], [Rd 4]) /\
-  dec_string (enc_string [104; 0; 105] ++ [7]) = (Err ENul, [7], [Rd 4; Rd 3; Rd 1]).
-Proof. vm_compute. repeat split; discriminate. Qed.
+  (len (ex_bytes 8191 65) <=? string_limit) && (len (ex_bytes 8192 65) <=? string_limit) &&
+  negb (string_limit <? 8192) && negb (has_byte 0 (ex_bytes 8192 65)) &&
+  out_eqb bytes_eqb (dec_string (enc_string (ex_bytes 8191 65) ++ [7])) (Ok (ex_bytes 8191 65), [7], [Rd 4; Rd 8191; Rd 1]) &&
+  out_eqb bytes_eqb (dec_string (enc_string (ex_bytes 8192 65) ++ [7])) (Ok (ex_bytes 8192 65), [7], [Rd 4; Rd 8192]) &&
+  out_eqb bytes_eqb (dec_string (enc_string (ex_bytes 8193 65) ++ [7]))
+                    (Err ELimit, ex_bytes 8193 65 ++ [0; 0; 0; 7], [Rd 4]) &&
+  out_eqb bytes_eqb (dec_string (enc_string [104; 0; 105] ++ [7])) (Err ENul, [7], [Rd 4; Rd 3; Rd 1]) = true.
+Proof. vm_compute. reflexivity. Qed.
 
+(* handles: 8 accepted; 63, 64 (<= 64, not 8) consumed and rejected; 65 rejected at once; 0 rejected *)
 Example C13_fh_boundary :
-  dec_fh (enc_fh 18446744073709551615 ++ [9]) = (Ok 18446744073709551615, [9], [Rd 4; Rd 8]) /\
-  dec_fh (enc_u32 63 ++ ex_bytes 64 1 ++ [9]) = (Err EBadLen, [9], [Rd 4; Rd 64]) /\
-  dec_fh (enc_u32 64 ++ ex_bytes 64 1 ++ [9]) = (Err EBadLen, [9], [Rd 4; Rd 64]) /\
-  dec_fh (enc_u32 65 ++ ex_bytes 68 1 ++ [9]) = (Err ELimit, ex_bytes 68 1 ++ [9], [Rd 4]) /\
-  dec_fh (enc_u32 0 ++ [9]) = (Err EBadLen, [9], [Rd 4]).
-Proof. vm_compute. repeat split. Qed.
+  out_eqb N.eqb (dec_fh (enc_fh 18446744073709551615 ++ [9])) (Ok 18446744073709551615, [9], [Rd 4; Rd 8]) &&
+  out_eqb N.eqb (dec_fh (enc_u32 63 ++ ex_bytes 64 1 ++ [9])) (Err EBadLen, [9], [Rd 4; Rd 64]) &&
+  out_eqb N.eqb (dec_fh (enc_u32 64 ++ ex_bytes 64 1 ++ [9])) (Err EBadLen, [9], [Rd 4; Rd 64]) &&
+  out_eqb N.eqb (dec_fh (enc_u32 65 ++ ex_bytes 68 1 ++ [9])) (Err ELimit, ex_bytes 68 1 ++ [9], [Rd 4]) &&
+  out_eqb N.eqb (dec_fh (enc_u32 0 ++ [9])) (Err EBadLen, [9], [Rd 4]) = true.
+Proof. vm_compute. reflexivity. Qed.
 
 Definition ex_call : call :=
   mkCall 305419896 2 100003 3 1 1 (ex_bytes 399 7) 0 (ex_bytes 400 8).
+Example C13_call_ok_witness : call_ok ex_call.
+Proof. unfold call_ok, u32. vm_compute. repeat split; discriminate. Qed.
 Example C13_call_nontrivial :
-  call_ok ex_call /\
-  dec_ok (dec_call (enc_call ex_call ++ [1; 2; 3])) = Some (ex_call, [1; 2; 3]) /\
-  o_trace (dec_call (enc_call ex_call)) =
-    [Rd 4; Rd 4; Rd 4; Rd 4; Rd 4; Rd 4; Rd 4; Rd 4; Rd 399; Rd 1; Rd 4; Rd 4; Rd 400] /\
-  (* credential of 401 bytes: rejected, eight words read *)
-  dec_call (enc_call (mkCall 1 2 3 4 5 1 (ex_bytes 401 7) 0 [])) =
-    (Err ELimit, ex_bytes 401 7 ++ [0; 0; 0] ++ enc_u32 0 ++ enc_u32 0,
-     [Rd 4; Rd 4; Rd 4; Rd 4; Rd 4; Rd 4; Rd 4; Rd 4]).
-Proof.
-  split; [unfold call_ok, u32; vm_compute; repeat split; discriminate|].
-  vm_compute. repeat split.
-Qed.
+  out_eqb call_eqb (dec_call (enc_call ex_call ++ [1; 2; 3]))
+     (Ok ex_call, [1; 2; 3],
+      [Rd 4; Rd 4; Rd 4; Rd 4; Rd 4; Rd 4; Rd 4; Rd 4; Rd 399; Rd 1; Rd 4; Rd 4; Rd 400]) &&
+  (* a credential of 401 bytes: rejected behind the length word, eight words read *)
+  out_eqb call_eqb (dec_call (enc_call (mkCall 1 2 3 4 5 1 (ex_bytes 401 7) 0 [])))
+     (Err ELimit, ex_bytes 401 7 ++ [0; 0; 0] ++ enc_u32 0 ++ enc_u32 0,
+      [Rd 4; Rd 4; Rd 4; Rd 4; Rd 4; Rd 4; Rd 4; Rd 4]) &&
+  (* a verifier of 401 bytes behind a 400-byte credential *)
+  res_eqb call_eqb (o_res (dec_call (enc_call (mkCall 1 2 3 4 5 1 (ex_bytes 400 7) 0 (ex_bytes 401 1))))) (Err ELimit) &&
+  trace_eqb (o_trace (dec_call (enc_call (mkCall 1 2 3 4 5 1 (ex_bytes 400 7) 0 (ex_bytes 401 1)))))
+     [Rd 4; Rd 4; Rd 4; Rd 4; Rd 4; Rd 4; Rd 4; Rd 4; Rd 400; Rd 4; Rd 4] = true.
+Proof. vm_compute. reflexivity. Qed.
 
 Definition ex_authsys (k : N) : authsys := mkAuthSys 77 [104; 111; 115; 116; 0] 1000 100 (ex_bytes k 4294967295).
-Example C13_authsys_boundary :
-  authsys_ok (ex_authsys 16) /\
-  parse_authsys (enc_authsys (ex_authsys 15) ++ [1]) = (Ok (ex_authsys 15), [1], [Al 5; Al 60]) /\
-  parse_authsys (enc_authsys (ex_authsys 16) ++ [1]) = (Ok (ex_authsys 16), [1], [Al 5; Al 64]) /\
-  parse_authsys (enc_authsys (ex_authsys 17) ++ [1]) =
-    (Err ELimit, concat (map enc_u32 (ex_bytes 17 4294967295)) ++ [1], [Al 5]) /\
-  parse_authsys [] = (Err EEmpty, [], []).
+Example C13_authsys_ok_witness : authsys_ok (ex_authsys 16).
 Proof.
-  split; [unfold authsys_ok, u32; cbn [ex_authsys a_stamp a_machine a_uid a_gid a_gids]; repeat split;
-          try (vm_compute; discriminate); repeat constructor|].
-  vm_compute. repeat split.
+  unfold authsys_ok, u32. cbn [ex_authsys a_stamp a_machine a_uid a_gid a_gids].
+  repeat split; try (vm_compute; discriminate). vm_compute. repeat constructor.
 Qed.
+Example C13_authsys_boundary :
+  out_eqb authsys_eqb (parse_authsys (enc_authsys (ex_authsys 15) ++ [1])) (Ok (ex_authsys 15), [1], [Al 5; Al 60]) &&
+  out_eqb authsys_eqb (parse_authsys (enc_authsys (ex_authsys 16) ++ [1])) (Ok (ex_authsys 16), [1], [Al 5; Al 64]) &&
+  out_eqb authsys_eqb (parse_authsys (enc_authsys (ex_authsys 17) ++ [1]))
+     (Err ELimit, concat (map enc_u32 (ex_bytes 17 4294967295)) ++ [1], [Al 5]) &&
+  out_eqb authsys_eqb (parse_authsys []) (Err EEmpty, [], []) = true.
+Proof. vm_compute. reflexivity. Qed.
 
 (* a record split into five fragments, two of them empty (one of these the last), followed by the next record *)
+Definition ex_frs : list bytes := [[1; 2; 3]; []; [4]; [5; 6; 7; 8; 9]; []].
+Example C13_fragments_hyps :
+  ex_frs <> [] /\ len (concat ex_frs) <= eff_max reader_default_max /\ Forall (fun f => len f < last_flag) ex_frs.
+Proof. split; [discriminate|]. split; [vm_compute; discriminate|]. repeat constructor. Qed.
 Example C13_fragments_nontrivial :
-  let frs := [[1; 2; 3]; []; [4]; [5; 6; 7; 8; 9]; []] in
-  frs <> [] /\ len (concat frs) <= eff_max reader_default_max /\ Forall (fun f => len f < last_flag) frs /\
-  read_record reader_default_max (enc_frags frs ++ [0; 0; 0; 1]) =
-    (Ok [1; 2; 3; 4; 5; 6; 7; 8; 9], [0; 0; 0; 1], [Rd 4; Rd 3; Rd 4; Rd 4; Rd 1; Rd 4; Rd 5; Rd 4; Al 9]) /\
+  out_eqb bytes_eqb (read_record reader_default_max (enc_frags ex_frs ++ [0; 0; 0; 1]))
+    (Ok [1; 2; 3; 4; 5; 6; 7; 8; 9], [0; 0; 0; 1], [Rd 4; Rd 3; Rd 4; Rd 4; Rd 1; Rd 4; Rd 5; Rd 4; Al 9]) &&
   (* limit 8: the fragment that would make 9 bytes is refused before its buffer is allocated *)
-  o_res (read_record 8 (enc_frags frs)) = Err ELimit /\
-  o_trace (read_record 8 (enc_frags frs)) = [Rd 4; Rd 3; Rd 4; Rd 4; Rd 1; Rd 4] /\
+  out_eqb bytes_eqb (read_record 8 (enc_frags ex_frs))
+    (Err ELimit, [5; 6; 7; 8; 9; 128; 0; 0; 0], [Rd 4; Rd 3; Rd 4; Rd 4; Rd 1; Rd 4]) &&
   (* limit 9 accepts *)
-  o_res (read_record 9 (enc_frags frs)) = Ok [1; 2; 3; 4; 5; 6; 7; 8; 9].
-Proof.
-  cbv zeta. split; [discriminate|]. split; [vm_compute; discriminate|].
-  split; [repeat constructor|]. vm_compute. repeat split.
-Qed.
+  res_eqb bytes_eqb (o_res (read_record 9 (enc_frags ex_frs))) (Ok [1; 2; 3; 4; 5; 6; 7; 8; 9]) = true.
+Proof. vm_compute. reflexivity. Qed.
 
 (* the writer with maximum fragment size 4 on a 10-byte record: 4 + 4 + 2, last-fragment bit on the third *)
 Example C13_write_read_nontrivial :
-  write_record 4 [1; 2; 3; 4; 5; 6; 7; 8; 9; 10] =
-    [0; 0; 0; 4; 1; 2; 3; 4; 0; 0; 0; 4; 5; 6; 7; 8; 128; 0; 0; 2; 9; 10] /\
-  write_record 4 [] = [128; 0; 0; 0] /\
-  eff_frag 0 = 1048576 /\ eff_frag (-5) = 1048576 /\ eff_frag 2147483648 = 1048576 /\ eff_frag 7 = 7 /\
-  dec_ok (read_record 0 (write_record 4 [1; 2; 3; 4; 5; 6; 7; 8; 9; 10] ++ [42])) =
-    Some ([1; 2; 3; 4; 5; 6; 7; 8; 9; 10], [42]).
-Proof. vm_compute. repeat split. Qed.
+  bytes_eqb (write_record 4 [1; 2; 3; 4; 5; 6; 7; 8; 9; 10])
+            [0; 0; 0; 4; 1; 2; 3; 4; 0; 0; 0; 4; 5; 6; 7; 8; 128; 0; 0; 2; 9; 10] &&
+  bytes_eqb (write_record 4 []) [128; 0; 0; 0] &&
+  (eff_frag 0 =? 1048576) && (eff_frag (-5) =? 1048576) && (eff_frag 2147483648 =? 1048576) && (eff_frag 7 =? 7) &&
+  out_eqb bytes_eqb (read_record 0 (write_record 4 [1; 2; 3; 4; 5; 6; 7; 8; 9; 10] ++ [42]))
+    (Ok [1; 2; 3; 4; 5; 6; 7; 8; 9; 10], [42], [Rd 4; Rd 4; Rd 4; Rd 4; Rd 4; Rd 2; Al 10]) = true.
+Proof. vm_compute. reflexivity. Qed.
 
 Print Assumptions C13_facts.
 Print Assumptions C13_u32_roundtrip.
